@@ -337,7 +337,9 @@ BUDGET = {"quick": {"n": 16, "enumerate": 0}, "thorough": {"n": 120, "enumerate"
 
 def shards(tier, seed):
     b = BUDGET[tier]
-    return [{"n": b["n"], "enumerate": b["enumerate"], "seed": seed * 1000 + i} for i in range(16)]
+    # quick: four shards each enumerate every visited-node index for one SAST plan (the fault position matters
+    # relative to the point where the transformer records its change); thorough: every shard, any pipeline
+    return [{"n": b["n"], "enumerate": b["enumerate"] if tier == "thorough" else (1 if i < 4 else 0), "enum_pipelines": ["plain", "sast"] if tier == "thorough" else ["sast"], "seed": seed * 1000 + i} for i in range(16)]
 
 
 def run_shard(spec):
@@ -346,7 +348,8 @@ def run_shard(spec):
 
     def fn(c):
         eval_plan(c, stats)
-        if c["fault"] == "visit-raises" and c["pipeline"] == "plain" and enum_left[0] > 0:
+        if c["pipeline"] in spec["enum_pipelines"] and c["pipeline"] != "rule" and enum_left[0] > 0 and c["fault"] in ("visit-raises", "parse-raises", "bad-utf8"):
+            c = dict(c, fault="visit-raises")
             enum_left[0] -= 1
             n = min(count_nodes(c), 80)
             stats.labels["visit-index-enumerations"] += 1
